@@ -13,6 +13,14 @@
 // then seen them outside a transaction; the handle must stay usable); manual sequences may go on
 // using the finished handle (every such call must fail); an outermost block may finish its own
 // transaction (Transaction must then report the failure of its COMMIT).
+//
+// Round 8: the pool below the handle is the *sql.DB or a caller's own ConnPool wrapper (ConnPoolBeginner); the root
+// handle is taken in one of several session forms (rootForms: Session{PrepareStmt} over a configured PrepareStmt
+// stacks two statement caches, ...); statements come in the forms gorm executes along different paths (RETURNING
+// updates / deletes, Save, raw Exec, database-assigned keys); blocks set and roll back to save points of their own;
+// manual sequences run trees of blocks through the Begin() handle; Transaction / Begin are first tried on a handle
+// that carries an error (nothing may start); a failed BEGIN must come back as the result and run nothing, and a
+// failed driver call inside a block must be heard of by the caller.
 package c04
 
 import (
@@ -184,9 +192,10 @@ type block struct {
 }
 
 type item struct {
-	kind  string // write | read | child | update | delete
+	kind  string // write | read | child | update | delete | ... | savepoint | rollto
 	child *block
-	via   int // how the block's handle is derived before the statement (see derive)
+	via   int    // how the block's handle is derived before the statement (see derive)
+	name  string // savepoint / rollto: the save point's name
 }
 
 // derive returns a handle derived from the block's transaction handle: whatever the
@@ -234,8 +243,21 @@ func (g *gen) block(depth int) *block {
 		b.outcome = 2
 	}
 	n := g.r.Range(1, 5)
+	// save points the block sets itself on its transaction handle (SavePoint / RollbackTo between its statements and
+	// children); live: the ones a RollbackTo may still name (rolling back to one discards the later ones)
+	var live []string
 	for i := 0; i < n; i++ {
 		switch k := g.r.Intn(8); {
+		case k < 3 && g.r.Chance(1, 6):
+			if len(live) > 0 && g.r.Bool() {
+				at := g.r.Intn(len(live))
+				b.items = append(b.items, item{kind: "rollto", name: live[at], via: g.via()})
+				live = live[:at+1]
+			} else {
+				name := fmt.Sprintf("b%ds%d", b.id, i)
+				live = append(live, name)
+				b.items = append(b.items, item{kind: "savepoint", name: name, via: g.via()})
+			}
 		case k < 3:
 			b.items = append(b.items, item{kind: core.Pick(g.r, writeKinds), via: g.via()})
 		case k == 3 && g.r.Intn(3) == 0:
@@ -269,6 +291,8 @@ func (b *block) String() string {
 	for _, it := range b.items {
 		if it.kind == "child" {
 			parts = append(parts, it.child.String())
+		} else if it.name != "" {
+			parts = append(parts, it.kind+"("+it.name+")"+viaNames[it.via])
 		} else {
 			parts = append(parts, it.kind+viaNames[it.via])
 		}
@@ -297,6 +321,8 @@ type world struct {
 	trace    []string
 	outside  bool // the statement runs outside any block (runOutside)
 	txOpts   bool // Transaction / Begin receive an explicit (zero) *sql.TxOptions
+	// faultFree: no fault is injected in this run (results of blocks inside a manual sequence are then predicted)
+	faultFree bool
 	// injectedSeen counts statement-level results (write / update / delete / read through a gorm handle)
 	// that carry the injected driver error: one driver call failed once, so at most one statement may
 	// report it; a second report means an earlier failure was kept somewhere and handed out again
@@ -633,8 +659,24 @@ func (w *world) runBlock(db *gorm.DB, b *block, nested bool) (err error) {
 	err = db.Transaction(func(tx *gorm.DB) (ferr error) {
 		fnRan = true
 		defer func() { fnOK = ferr == nil && recover2() }()
+		saves := map[string]map[int64]string{}
 		for _, it := range b.items {
 			switch it.kind {
+			case "savepoint":
+				e := w.hear(derive(tx, it.via).SavePoint(it.name).Error)
+				w.trace = append(w.trace, fmt.Sprintf("T%d: savepoint %s -> %v", b.id, it.name, e))
+				if e != nil {
+					return e
+				}
+				saves[it.name] = w.snapshot()
+			case "rollto":
+				e := w.hear(derive(tx, it.via).RollbackTo(it.name).Error)
+				w.trace = append(w.trace, fmt.Sprintf("T%d: rollback to %s -> %v", b.id, it.name, e))
+				if e != nil {
+					return e
+				}
+				w.state = saves[it.name]
+				saves[it.name] = w.snapshot()
 			case "write":
 				if e := w.write(derive(tx, it.via)); e != nil {
 					return e
@@ -742,11 +784,15 @@ type manualStep struct {
 	name string
 	via  int
 	late bool // issued on the handle after the transaction was finished
+	// block: a tree of Transaction blocks run through the handle Begin() returned (tx.Transaction(fc)); the caller
+	// looks at its error, recovers its panic, and goes on: the transaction must stay usable
+	child *block
 }
 
 func genManual(r *core.Rand) []manualStep {
 	var steps []manualStep
 	var saves []string
+	g := &gen{r: r}
 	n := r.Range(2, 9)
 	for i := 0; i < n; i++ {
 		switch k := r.Intn(8); {
@@ -754,6 +800,8 @@ func genManual(r *core.Rand) []manualStep {
 			steps = append(steps, manualStep{kind: core.Pick(r, writeKinds), via: r.Intn(len(viaNames)) * r.Intn(2)})
 		case k == 3 && r.Bool():
 			steps = append(steps, manualStep{kind: core.Pick(r, mutateKinds), via: r.Intn(len(viaNames)) * r.Intn(2)})
+		case k == 4 && g.blocks < 6 && r.Bool():
+			steps = append(steps, manualStep{kind: "block", child: g.block(r.Range(1, 2))})
 		case k == 3:
 			steps = append(steps, manualStep{kind: "read", via: r.Intn(len(viaNames)) * r.Intn(2)})
 		case k < 6:
@@ -844,6 +892,27 @@ func (w *world) runManual(base *gorm.DB, steps []manualStep) (finalErr error) {
 		case "update", "delete", "ghost-update", "ghost-delete", "update-ret", "delete-ret", "save", "exec":
 			if e := w.mutate(derive(tx, s.via), s.kind); e != nil {
 				return abort(e)
+			}
+		case "block":
+			var e error
+			var pv interface{}
+			func() {
+				defer func() { pv = recover() }()
+				e = w.runBlock(tx, s.child, true)
+			}()
+			w.trace = append(w.trace, fmt.Sprintf("tx.Transaction(T%d) returned %v (panic %v)", s.child.id, e, pv))
+			if w.faultFree {
+				we, wp := expectedTop(s.child)
+				switch {
+				case wp != nil && pv != interface{}(wp):
+					w.add("panic value %v of block T%d did not reach the caller of tx.Transaction unchanged (got %v, error %v)", wp, s.child.id, pv, e)
+				case wp == nil && pv != nil:
+					w.add("unexpected panic %v out of block T%d", pv, s.child.id)
+				case wp == nil && we != nil && e != error(we):
+					w.add("tx.Transaction(T%d) returned %v, not the block's own error value %v", s.child.id, e, we)
+				case wp == nil && we == nil && e != nil:
+					w.add("all blocks of T%d succeed but tx.Transaction returned %v", s.child.id, e)
+				}
 			}
 		case "savepoint":
 			e := w.hear(tx.SavePoint(s.name).Error)
@@ -1046,6 +1115,9 @@ func (p program) String() string {
 	parts := make([]string, len(p.manual))
 	for i, s := range p.manual {
 		parts[i] = s.kind + viaNames[s.via]
+		if s.child != nil {
+			parts[i] = "tx.Transaction:" + s.child.String()
+		}
 		if s.name != "" {
 			parts[i] += "(" + s.name + ")"
 		}
@@ -1065,7 +1137,7 @@ func execute(hi int, p program, failAt int) (w *world, calls int, retErr error, 
 	if _, err := h.SQL.Exec("DELETE FROM kvs; INSERT INTO kvs(id,v) VALUES (1,'seed1'),(2,'seed2')"); err != nil {
 		panic(err)
 	}
-	w = &world{h: h, k: cfgOf(hi), state: map[int64]string{1: "seed1", 2: "seed2"}, nextID: 100, rootForm: p.rootForm, txOpts: p.txOpts}
+	w = &world{h: h, k: cfgOf(hi), state: map[int64]string{1: "seed1", 2: "seed2"}, nextID: 100, rootForm: p.rootForm, txOpts: p.txOpts, faultFree: failAt == 0}
 	// session-level switches of the root handle count like the configured ones
 	switch rootForms[p.rootForm] {
 	case "db.Session{SkipDefaultTransaction}":
@@ -1079,7 +1151,9 @@ func execute(hi int, p program, failAt int) (w *world, calls int, retErr error, 
 		h.Rec.SetHook(func(ev *recdrv.Event) error {
 			err := hook(ev)
 			if err != nil {
-				w.firedExplicit = w.explicit
+				// (a preparation that fails may be made up for: QueryRowContext of the statement cache runs the
+				// query unprepared then; only calls that carry the operation itself must be heard of)
+				w.firedExplicit = w.explicit && ev.Kind != recdrv.KPrepare
 				w.firedAt = fmt.Sprintf("%s %s", ev.Kind, ev.Query)
 			}
 			return err
@@ -1228,6 +1302,23 @@ func run(c *core.Ctx) {
 	c.Logf("PROGRAM %s", desc)
 	w, calls, err, pv := execute(hi, p, 0)
 	c.Inc("programs")
+	ps := p.String()
+	for _, f := range []struct {
+		name string
+		on   bool
+	}{
+		{"programs_on_wrapped_pool", cfgOf(hi).wrapped},
+		{"programs_on_derived_root_handle", p.rootForm != 0},
+		{"programs_with_error_carrying_handle", p.errHandle != 0},
+		{"programs_with_returning_update_or_delete", strings.Contains(ps, "-ret")},
+		{"programs_with_savepoints_inside_blocks", p.root != nil && strings.Contains(ps, "savepoint(")},
+		{"manual_sequences_with_blocks", p.root == nil && strings.Contains(ps, "tx.Transaction:")},
+		{"manual_sequences", p.root == nil},
+	} {
+		if f.on {
+			c.Inc(f.name)
+		}
+	}
 	var problems []string
 	problems = append(problems, w.problems...)
 	if p.root != nil {
@@ -1317,19 +1408,25 @@ func runFault(c *core.Ctx, hi int, p program, desc string, k int) {
 var Engine = &core.Engine{
 	ID:    "C04",
 	Level: "fault_enumeration",
-	Rule: "seeded programs: trees of nested Transaction blocks (depth <= 4, <= 12 blocks; items write / update / delete / read / child block; outcome nil / sentinel error / panic(sentinel); parent propagates or swallows a child's error) and manual Begin/SavePoint/RollbackTo/Commit/Rollback sequences (one in three continuing on the finished handle), half of the programs with write/read/update/delete statements outside any block before and after it, one outermost block in ten finishing its own transaction, on 8 configurations {PrepareStmt, DisableNestedTransaction, SkipDefaultTransaction}; each program runs fault-free and then once per faultable driver call (BEGIN, SAVEPOINT, statements, COMMIT; all calls for programs with <= 14 calls (quick) / 40 (thorough), 6 sampled positions beyond); " +
-		"distinct = (config, depth, rows, error, panic, manual) resp. (config, fault position, error, panic, rows); non-trivial = every program writes and is checked against the snapshot-stack model",
+	Rule: "seeded programs: trees of nested Transaction blocks (depth <= 4, <= 12 blocks; items: insert with a given key / with a key the database assigns, update, delete, the same with clause.Returning, Save, raw Exec, ghost statements whose hook writes, CreateInBatches with a colliding row, read (Find / Rows / Row), SavePoint / RollbackTo on the block's own handle, child block; outcome nil / sentinel error / panic(sentinel); parent propagates or swallows a child's error, recovers or passes a child's panic) and manual Begin/SavePoint/RollbackTo/Commit/Rollback sequences with the same statements and with trees of blocks run through the Begin() handle (one in three continuing on the finished handle), half of the programs with statements outside any block before and after it, one outermost block in ten finishing its own transaction, one program in four inside db.Connection, one in four with explicit *sql.TxOptions; " +
+		"on 16 configurations {PrepareStmt, DisableNestedTransaction, SkipDefaultTransaction} x {pool = *sql.DB, pool = a caller's own ConnPool wrapper beginning through ConnPoolBeginner}, the root handle taken in one of 10 forms (db, Session{PrepareStmt} once and twice, WithContext, Session{Context}, Session{NewDB}, Debug, Session{PrepareStmt,SkipHooks}.Session, Session{SkipDefaultTransaction}, Session{DisableNestedTransaction}); one program in four first calls the same entry point (Transaction / Begin) on a handle that carries an error (AddError, a First() that found nothing, a session of it): nothing may run or stay open and that error must come back; " +
+		"each program runs fault-free and then once per faultable driver call (BEGIN, SAVEPOINT, statements, preparations, COMMIT; all calls for programs with <= 14 calls (quick) / 40 (thorough), 6 sampled positions beyond): a failed BEGIN must run nothing and come back as the result, a failed call inside a block / sequence must be returned by some call of the program and by at most one statement; " +
+		"distinct = (config, depth, rows, error, panic, manual, root form, error-handle form) resp. (config, fault position, error, panic, rows); non-trivial = every program writes and is checked against the snapshot-stack model",
 	Assumptions: []string{
 		"the model advances at the client boundary: a write counts when gorm reported success, a block's snapshot is restored when gorm reported the block's failure (so an injected fault needs no separate prediction)",
 		"SAVEPOINT / ROLLBACK TO errors are returned (vsqlite dialector; the stock SQLite dialector of the external driver module swallows them); faults are never injected on ROLLBACK or ROLLBACK TO SAVEPOINT",
 		"a failed COMMIT is modelled as 'the server rolled the transaction back'",
-		"RollbackTo(name) keeps the savepoint itself and discards later ones (SQL semantics)",
+		"RollbackTo(name) keeps the savepoint itself and discards later ones (SQL semantics); a block only rolls back to save points it set itself and that are still live (a manual sequence may name a discarded one: the error ends the sequence with Rollback)",
+		"session-level SkipDefaultTransaction / DisableNestedTransaction of the root handle count like the configured switches",
+		"a failed preparation need not be reported (the statement cache runs a QueryRow unprepared instead); every other failed driver call inside a block / sequence must be returned by some call; for statements outside any block only durability is judged (their reporting is C05's subject)",
+		"Transaction / Begin on a handle that carries an error is generated at top level only: what a nested block on such a handle does (with or without DisableNestedTransaction) is not fixed by the statement",
+		"the rows handed back by UPDATE / DELETE ... RETURNING are not judged, only the statement's error and its durability; a block that fails after its own SavePoint returns at once (the handle keeps a save point's error by design)",
 	},
 	Cases: func(tier string) int {
 		if tier == "thorough" {
-			return 8 * 6000
+			return nHandles * 6000
 		}
-		return 8 * 600
+		return nHandles * 600
 	},
 	Batch:         func(string) int { return 64 },
 	Run:           run,
